@@ -781,6 +781,49 @@ def run_check(tier, seed):
     return exit_code
 
 
+def replay(doc, path):
+    """Re-run the single corrupted buffer (or system-level plan) a C10 replay file names."""
+    v = doc["violation"]
+    seed, tier = doc.get("seed", 0), doc.get("tier", "quick")
+    overlay = build.build(asan=True)
+    impl = v.get("impl", "c")
+    if "sys_index" in v:
+        from simkit import driver
+        w = driver.Worker(overlay, impl, 0, 0, asan=(impl == "c"))
+        try:
+            res = w.run_plan(gen_plan(seed, v["sys_index"], tier))
+        finally:
+            w.close()
+        hit = [x for x in res.get("violations", []) if x[0] == PROP and x[1] == doc["clause"]]
+        died = res.get("status") in ("worker_died", "worker_timeout")
+    else:
+        case = v.get("case") or (v.get("chunk") or "@ ?").split(" ", 1)[1]
+        name = case.split("/", 1)[0]
+        tmp = tempfile.mkdtemp(prefix="c10r-", dir=overlay)
+        nw = 8
+        names = [n for n, _ in corpus(seed)] + ["own-v2-c0", "own-v2-c1", "own-v0", "own-v1"]
+        wid = names.index(name) % nw if name in names else 0
+        cfg = {"seed": seed, "tier": tier, "wid": wid, "nworkers": nw, "budget": 300, "only": [case],
+               "journal": os.path.join(tmp, "j")}
+        p = _spawn(overlay, impl, cfg)
+        try:
+            so, se = p.communicate(timeout=400)
+        except subprocess.TimeoutExpired:
+            p.kill()
+            so, se = p.communicate()
+        line = next((ln for ln in so.splitlines()[::-1] if ln.startswith("{")), None)
+        died = p.returncode != 0 or line is None
+        hit = [] if died else [x for x in json.loads(line)["violations"] if x["clause"] == doc["clause"]]
+        if died:
+            print((se or "")[-1500:])
+    if hit or (died and doc["clause"] in ("interpreter_crashed_or_asan_report", "interpreter_crashed_in_fetch_path")):
+        print(f"VIOLATION property={PROP} replay={path}")
+        print(f"  reproduced clause={doc['clause']}")
+        return 1
+    print(f"not reproduced: clause={doc['clause']}")
+    return 0
+
+
 def _last_journal(path):
     try:
         with open(path) as f:
